@@ -67,6 +67,9 @@ Added probe families (helpers in harness/s5_c13.py):
    consumers, constants, identity partition, registered names); the enums and their consumers loaded without the colliders must look
    the same; the member tables must be the C numbering with the enum's own members in scope, the constants keep their own values.
    The reference text and half of the one-text mutants also go to the definition-parser correspondence.
+ * comment stripper on carriage returns (v1.STRIP_EDGE, v1.STRIP_SOUP; F73): the generated definition texts contain no CR, so the
+   `stripcomments` correspondence also runs on hand-written texts and a random soup over `/ * " ' CR LF CRLF` and ready-made comments
+   with every kind of line end: `// c` + CR LF and `// c` + CR at the end of the text are comments, `// c` + CR + anything else is not.
 """
 from __future__ import annotations
 
@@ -698,6 +701,19 @@ def run(env) -> Result:
             continue
         if signature(cs, {"B"}, probe, dc) != signature(cs0, {"B"}, probe, dc):
             viol("blanks inside array brackets changed the resulting types", cd)
+    # comment stripper correspondence on texts with carriage returns (v1.STRIP_EDGE, v1.STRIP_SOUP; its own random stream): a `//` comment
+    # closed by CR LF / by one CR at the end of the text is a comment (fix F73), one that runs into a lone CR is not
+    strnd = mkrng(env["seed"], "c13-strip")
+    stripped = set()
+    for text in v1.STRIP_EDGE + [v1.strip_soup(strnd, strnd.randint(1, 10)) for _ in range(600 if tier == "quick" else 10000)]:
+        if text in stripped:
+            continue
+        stripped.add(text)
+        res.count(("strip-soup", text), False)
+        if "\r" in text and "//" in text:
+            res.feat("strip-soup:cr+line-comment")
+        lines.append(sx([A("stripcomments"), text]))
+        metas.append(("strip", text, dc.parser.TokenParser._remove_comments(text)))
     redeclaration_probes(res, viol, dc, mkrng(env["seed"], "c13-redeclare"), 240 if tier == "quick" else 3000)
     option_history_probes(res, viol, dc, mkrng(env["seed"], "c13-options"), 40 if tier == "quick" else 600)
     # name collisions across unrelated definitions: enum / flag members named like #define constants / anonymous-enum members (v8_c13)
